@@ -1104,10 +1104,27 @@ def build_evidence(prop, pinfo, tier, seed, results, canaries, mutant_results, b
         u = r["unit"]
         cmds.append(r["res"]["cmd"])
         bd = r["breakdown"]
+        # a property that owns only part of a shared unit (`select` over unit/function/label) counts only its own functions
+        fsel = [re.compile(x) for x in pinfo.get("select", []) if not x.startswith("^bounded")]
+        own_takes = None
+        if fsel and not pinfo.get("ignore"):
+            own = {t.key for t in u["takes"] if any(x.search(f"{u['name']}/{t.key}/") for x in fsel)}
+            names = set(own)
+            for t in u["takes"]:
+                if t.key in own:
+                    m = re.search(r"impl\s+(?:\S+\s+for\s+)?(\w+).*::\s*fn\s+(\w+)", t.selector)
+                    if m and "rename=" not in t.opts:
+                        names.add(f"{m.group(1)}::{m.group(2)}")
+            bd_own = [b for b in bd if b.get("function", "").split("::")[-1] in names or "::".join(b.get("function", "").split("::")[-2:]) in names]
+            if bd_own:
+                bd = bd_own
+                own_takes = own
         nob += len(bd)
         ndis += sum(1 for b in bd if b.get("success"))
         solver_ms += sum(b.get("time", 0) for b in bd)
         for t in u["takes"]:
+            if own_takes is not None and t.key not in own_takes:
+                continue
             if "fn" in t.selector:
                 functions.append({"unit": u["name"], "real": f"{t.file}:{t.meta.get('line_start')}-{t.meta.get('line_end')}",
                                   "selector": t.selector, "sha256_of_source_lines": t.meta.get("sha256"),
